@@ -22,7 +22,9 @@ from vlib import core
 from vlib import safe_errors as G
 
 PART = "errors"
-HEAVY_PREFIXES = ("graphs:templates", "dynamic:unbounded", "boundary:", "graphs:import", "graphs:include")
+# classes run one case per process (a non-terminating case then costs one CPU limit, not a batch's)
+HEAVY_PREFIXES = ("graphs:templates", "graphs:attribute-sets:cyclic", "dynamic:unbounded", "boundary:", "graphs:import", "graphs:include")
+PLAIN_AS_LIMIT_KB = 4 * 1024 * 1024      # 4 GB of address space for one plain-build process (a batch of 40 ordinary cases needs < 300 MB)
 DEEP_CHAIN_GUARD = 1000      # K-C03e-1: dependency paths of top-level variables longer than this are not generated
 CIRC_RX = re.compile(r"circular variable definition", re.I)
 INF_RX = re.compile(r"infinite recursion", re.I)
@@ -66,6 +68,10 @@ def gen_graphs(ctx, scale):
     for deps, start in shapes:
         for f in G.VAR_FORMS:
             items.append(variable_item(ctx, deps, [f] * len(deps), start, "fixed-cycle"))
+    # acyclic shapes: forward chain, diamond (a shared dependency is evaluated once), the same reference twice, fan-out
+    for deps, start in (([[1], [2], [3], [4], []], 0), ([[1, 2], [3], [3], []], 0), ([[1, 1, 1], []], 0), ([[1, 2, 3, 4], [], [], [4], []], 0), ([[]], 0), ([[2], [0], []], 1)):
+        for f in G.VAR_FORMS:
+            items.append(variable_item(ctx, deps, [f] * len(deps), start, "fixed-acyclic"))
     for _ in range(n_var):
         n = r.randrange(1, 9)
         cyc = r.choice([None, None, 1, 2, 2, 3, 4, 5])
@@ -122,8 +128,8 @@ def gen_boundaries(ctx, facts):
     items = []
     lim = facts.get("template_nesting_limit", 100000)
     init = facts.get("template_stack_initial", 1)
-    # '/' + (d + 1) instantiations of r: allowed iff d + 2 <= lim - init
-    d_ok = lim - init - 2
+    # '/' + (d + 1) instantiations of r: allowed iff d + 2 <= lim - init (one more when the test is '>' instead of '>=')
+    d_ok = lim - init - 2 + (1 if facts.get("template_limit_cmp") == "CmpGt" else 0)
     for d in ((d_ok, d_ok + 1) if not ctx.thorough else (d_ok - 1, d_ok, d_ok + 1, d_ok + 2)):
         rec = G.sheet("<xsl:template match='/'><xsl:call-template name='r'><xsl:with-param name='n' select='%d'/></xsl:call-template></xsl:template>"
                       "<xsl:template name='r'><xsl:param name='n'/><xsl:if test='$n &gt; 0'><xsl:call-template name='r'><xsl:with-param name='n' select='$n - 1'/></xsl:call-template></xsl:if>"
@@ -132,6 +138,11 @@ def gen_boundaries(ctx, facts):
         items.append(mk("T", "boundary:template-limit", rec, must_fail=not ok, expect_out=("text", "B") if ok else None,
                         model_line="T ladder %d" % (d + 1), oracle=("ladder", ok)))
     xl = facts.get("xpath_nesting_limit", 1024)
+    if facts.get("xpath_nesting_cmp") == "CmpGe":
+        xl -= 1
+    # flat expressions with many groups one after the other: the counter must come down again after each of them
+    for e in ("+".join(["(1)"] * (2 * xl + 7)), " + ".join(["-1"] * (2 * xl + 7)), "+".join(["string(((1)))"] * (xl + 3))):
+        items.append(mk(ctx.rng.choice("TX"), "boundary:xpath-nesting:flat", G.tmpl("<xsl:value-of select='%s'/>" % e), X=e, must_fail=False))
     for d in (1, xl - 1, xl, xl + 1, xl + 2, 3 * xl):
         # d nested parenthesised expressions: Expr() is entered d + 1 times (the outermost one for the whole expression)
         e = "(" * d + "1" + ")" * d
@@ -331,6 +342,9 @@ def evaluate(ctx, asan, plain, model, items, tag):
         ctx.count("entry:" + c.entry)
         ctx.cov["evaluations"] += 1
         f_a, f_p = ra.get(c.id), rp.get(c.id)
+        if it.model_line and model and rm.get(c.id, "").startswith("fuel"):
+            # the model of the code as it is does not terminate on this graph: the library should not either
+            corr.append("%s: the extracted model runs out of fuel (= the modelled guard does not stop the recursion) on %s" % (it.cls, it.model_line[:120]))
         if f_a is None and f_p is None:
             continue
         ctx.cov["traces_validated_against_impl"] += 1
@@ -358,9 +372,6 @@ def evaluate(ctx, asan, plain, model, items, tag):
                 lv, mo = library_verdict(it, f), model_verdict(it, mv)
                 if lv != mo:
                     corr.append("%s [%s build]: model says '%s' (%s), library '%s'; graph %s" % (it.cls, build, mo, mv, lv, it.model_line[:120]))
-            if mv.startswith("fuel"):
-                # the model of the code as it is does not terminate on this graph: the library should not either
-                corr.append("%s: the extracted model runs out of fuel (= the modelled guard does not stop the recursion) on %s" % (it.cls, it.model_line[:120]))
     return failures, corr
 
 
@@ -469,7 +480,15 @@ def run_part(ctx):
     known = {k["key"]: k for k in ctx.known.for_property("C03")}
     tmpdir = tempfile.mkdtemp(prefix="c03e_")
     try:
-        replay_known(ctx, plain, asan, known, tmpdir)
+        # the plain build has no sanitizer run-time to stop a loop that allocates without end (the ASan build has
+        # hard_rss_limit_mb): run it under an address-space limit, so that such a loop ends in an allocation failure
+        # (reported as a crash / escaped exception of the isolated case) instead of exhausting the machine
+        wrapper = os.path.join(tmpdir, "safe_plain_limited")
+        with open(wrapper, "w") as fh:
+            fh.write("#!/bin/sh\nulimit -v %d\nexec %s \"$@\"\n" % (PLAIN_AS_LIMIT_KB, plain))
+        os.chmod(wrapper, 0o755)
+        plain_raw, plain = plain, wrapper
+        replay_known(ctx, plain_raw, asan, known, tmpdir)
         scale = 1 if not ctx.thorough else 8
         sizes = sorted(set((ctx.notes.get("safe_facts") or {}).get("sizes") or []) | {100, 101, 200, 512, 1024})
         sizes = [s for s in sizes if s <= 4096]
